@@ -347,6 +347,7 @@ func TestC02(t *testing.T) {
 	s.grid()
 	s.closeAfterWrite()
 	s.closedSessionInterference()
+	s.writeAfterFailedFirstWrite()
 	s.mux()
 	s.tamper()
 	s.system()  // system_test.go: real loopback sockets, outside any bubble
@@ -711,6 +712,86 @@ func (s *state) closedSessionInterference() {
 	}
 	s.r.Require("closed_session_interference_transfers_completed", 12)
 	s.r.Require("reads_on_closed_sessions_while_a_live_one_transfers", 50)
+}
+
+// writeAfterFailedFirstWrite: a timed-out Write is a recoverable error for a net.Conn - the caller clears
+// the deadline and writes again. On a private-network (PSK) connection the very first Write also has to
+// deliver the stream's nonce: after a first Write that failed with nothing sent, what is written next
+// must still reach the reader unmodified and complete.
+func (s *state) writeAfterFailedFirstWrite() {
+	for _, side := range []string{"a", "b"} {
+		for _, L := range []int{1, 24, 25, 1000, 70000} {
+			for _, fails := range []int{1, 3} {
+				id := fmt.Sprintf("write-after-failed-first-write/psk/%s/L%d/failed%d", side, L, fails)
+				if !s.r.Want(id) || s.r.TooMany() {
+					continue
+				}
+				ka, kb := s.keyPair(L)
+				var rr readResult
+				var setupErr error
+				var failed int
+				var werr error
+				br := run.Bubble(s.t, func(t *testing.T) {
+					ctx, cancel := context.WithTimeout(context.Background(), time.Minute)
+					defer cancel()
+					st, err := establish(ctx, "psk", ka, kb, s.psk)
+					if err != nil {
+						setupErr = err
+						return
+					}
+					w, rd := st.a, st.b
+					if side == "b" {
+						w, rd = st.b, st.a
+					}
+					b := make([]byte, L)
+					fill(13, 0, b)
+					for k := 0; k < fails; k++ {
+						w.SetWriteDeadline(time.Now().Add(-time.Second))
+						if n, err := w.Write(b); err != nil && n == 0 {
+							failed++
+						}
+					}
+					w.SetWriteDeadline(time.Time{})
+					if failed == fails { // otherwise part of the stream is on the wire already: not this case
+						go func() {
+							_, werr = w.Write(b)
+							w.Close()
+						}()
+						rd.SetReadDeadline(time.Now().Add(30 * time.Second))
+						rr = readAll(rd, 13, func(int64) int { return 4096 }, nil)
+					}
+					st.a.Close()
+					st.b.Close()
+					st.rawA.Close()
+					st.rawB.Close()
+				})
+				s.r.Eval(1)
+				detail := map[string]any{"length": L, "writer": side, "first_writes_failed_with_nothing_sent": failed, "write_error_afterwards": fmt.Sprint(werr), "reader": rr}
+				if s.r.BubbleFailed(br, "write-after-failed-first-write", id, "reader hung", detail) {
+					continue
+				}
+				if setupErr != nil {
+					s.r.Inconclusive(id, setupErr.Error())
+					continue
+				}
+				if failed != fails {
+					s.r.Count("first_write_with_expired_deadline_did_not_fail_cleanly", 1)
+					continue
+				}
+				s.r.Count("writes_after_a_failed_first_write", 1)
+				s.r.Nontrivial(id)
+				switch {
+				case werr != nil:
+					s.r.Count("write_after_failed_first_write_refused", 1) // a conn that refuses further use is fail-stop, not a fidelity violation
+				case rr.BadAt >= 0:
+					s.r.Violation("write-after-failed-first-write:modified-byte/psk", id, fmt.Sprintf("after %d timed-out first writes (nothing sent) the next Write succeeded, but the reader's byte at position %d differs from what was written", fails, rr.BadAt), detail)
+				case rr.Total != int64(L) || !rr.EOF:
+					s.r.Violation("write-after-failed-first-write:short-or-no-eof/psk", id, fmt.Sprintf("after %d timed-out first writes the next Write of %d bytes succeeded, the reader got %d bytes, clean EOF=%v, err=%q", fails, L, rr.Total, rr.EOF, rr.Err), detail)
+				}
+			}
+		}
+	}
+	s.r.Require("writes_after_a_failed_first_write", 10)
 }
 
 func head(a []int, n int) []int {
